@@ -9,14 +9,24 @@ class C11(Check):
     model_desc = ("Model/Wire.v: UnpackDomainName, unpackUint16/32/48, unpackMsgHdr, unpackQuestion, unpackHeader + "
                   "UnpackRRWithHeader framing, unpackRRslice, TSIG RDATA decoder; Model/Tsig.v: tsigBuffer (digest input), "
                   "stripTsig, tsigVerify with both HMAC providers, TsigGenerateWithProvider, envelope chains; HMAC, key store "
-                  "and the other types' RDATA decoders are Section variables")
+                  "and the other types' RDATA decoders are Section variables (instantiated for A, NS, CNAME, SOA, PTR, MX, TXT, private use)")
     rule = ("direct oracles on the implementation: sign random messages (all record kinds, compressed or not) with each of the "
             "five HMAC-SHA algorithms, both providers, request MAC absent/short/long, timers-only on/off; check layout against "
             "an independent framing walker, MAC against crypto/hmac over an independently built RFC 8945 4.3 digest, verdicts at "
             "now = signed +- {0,1,fudge,fudge+1}, every single-bit flip and every prefix of the signed octets, single-field "
             "re-encodings, wrong secret/request MAC/timers flag/key store, messages without TSIG, chains of 1..6 envelopes with "
-            "removal/reordering/duplication/alteration. Model cases: name decoder, stripTsig, tsigBuffer, digest, verify, generate, "
-            "chain on boundary-directed hand-made octets (both sides of every bounds check) and on sampled alterations. A case is "
+            "removal/reordering/duplication/alteration. Sessions over scripted in-memory connections: Transfer.In (AXFR and IXFR, "
+            "1..9 envelopes, every split, TsigSecret or TsigProvider, signed or unsigned request), Transfer.ReadMsg loops, "
+            "Conn.ReadMsg and Client.ExchangeWithConn over stream and datagram conns, Server (TCP connection with several "
+            "queries, UDP) with TsigStatus, response.WriteMsg and Transfer.Out; the peer signs with an independent RFC 8945 "
+            "signer; for every envelope position (first, middle, last) and 29 tamperings (TSIG removed/moved/followed by a "
+            "record, forged content, MAC altered or computed with another secret, prior MAC or variable mode, key or algorithm "
+            "renamed, timer fields, stale/post-dated, envelope dropped/duplicated/reordered/injected/replayed from another "
+            "session) the receiver must report an error at that position, deliver every envelope in front of it as verified and "
+            "never deliver as verified content nobody signed; untampered chains must verify; what the library writes "
+            "(requests, responses, outgoing envelopes) must be the RFC chain MAC. Model cases: name decoder, stripTsig, tsigBuffer, digest, verify, generate, "
+            "chain on boundary-directed hand-made octets (both sides of every bounds check) and on sampled alterations; chain and verify "
+            "cases whose implementation verdict is the one Transfer.In / Transfer.ReadMsg / Conn.ReadMsg / TsigStatus reported. A case is "
             "non-trivial when its input is longer than a DNS header; distinct by hash of (function, arguments, output).")
     partial = ["HMAC is a Section variable: unforgeability is the named hypothesis mac_binding (hmac a k injective in its data), "
                "not a theorem; crypto/hmac itself is exercised by the harness only",
